@@ -402,4 +402,62 @@ theorem mstep_ok (s : SM) (op : SmOp) (m : Mem) (h : MInv s) (hc : smContract op
     refine ⟨h, ?_, by omega, by omega⟩
     simp [smAdmit, SeqMap.ans, getmin_spec s h]
 
+/-! ### creation, release, whole runs -/
+
+theorem init_spec (m : Mem) :
+    match SeqMap.init m with
+    | (some s, m') => MInv s ∧ SeqMap.abs s = smEmpty ∧ s.offset = 0 ∧ s.len = 0 ∧ s.q.offset = 0 ∧ s.q.len = 0 ∧
+        m'.live = m.live + 3 + bufBlocks s.q.ea ∧ m'.refusals = m.refusals
+    | (none, m') => m'.live = m.live ∧ m'.refusals > m.refusals := by
+  unfold SeqMap.init
+  cases hr : (m.malloc SeqMap.structSize).1
+  · have hf := malloc_fail hr
+    rw [pair_eta _ hr]
+    simp only
+    exact ⟨hf.2.1, by omega⟩
+  · have hf := malloc_ok hr
+    rw [pair_eta _ hr]
+    simp only
+    have hs := EQueue.init_spec ptrLen (m.malloc SeqMap.structSize).2
+    rcases hres : EQueue.init ptrLen (m.malloc SeqMap.structSize).2 with ⟨oq, m2⟩
+    rw [hres] at hs
+    cases oq with
+    | none =>
+      simp only at hs ⊢
+      have f := free_facts m2 false
+      exact ⟨by rw [f.2.1]; simp; omega, by rw [f.1]; omega⟩
+    | some q =>
+      simp only at hs ⊢
+      obtain ⟨hinv, hrl, habs, hoff, hlen, hlive, hrf⟩ := hs
+      refine ⟨⟨⟨hinv, hrl, by simp [hlen], by simp⟩, ?_⟩, ?_, by triv, by triv, hoff, hlen, by omega, by omega⟩
+      · intro b hb; simp only at hb; rw [habs] at hb; cases hb
+      · simp [SeqMap.abs, habs, liveFrom, smEmpty]
+
+theorem free_live (s : SM) (m : Mem) : (SeqMap.free s m).live = m.live - 3 - bufBlocks s.q.ea := by
+  simp only [SeqMap.free]
+  rw [(free_facts _ false).2.1, EQueue.free_live]; simp; omega
+
+theorem run_ok : ∀ (ops : List SmOp) (s : SM) (m : Mem), MInv s → (∀ op ∈ ops, smContract op) →
+    (s.q.offset + s.q.len + ops.length) * 8 ≤ EArray.SIZE_MAX → s.offset + s.len + ops.length ≤ INT64_MAX →
+    MInv (SeqMap.run s ops m).2.1 ∧
+    smAdmitAll (SeqMap.abs s) (SeqMap.run s ops m).1 = some (SeqMap.abs (SeqMap.run s ops m).2.1)
+  | [], s, m, h, _, _, _ => ⟨h, rfl⟩
+  | op :: rest, s, m, h, hc, hq, hn => by
+    simp only [List.length_cons, Int.natCast_add, Int.natCast_one] at hq hn
+    have hs := mstep_ok s op m h (hc op List.mem_cons_self)
+      (Nat.le_trans (Nat.mul_le_mul_right _ (by omega)) hq) (by omega)
+    unfold MStepOk at hs
+    obtain ⟨s1, s2, s3, s4⟩ := hs
+    have ih := run_ok rest (SeqMap.step s op m).2.1 (SeqMap.step s op m).2.2 s1
+      (fun o ho => hc o (List.mem_cons_of_mem _ ho))
+      (Nat.le_trans (Nat.mul_le_mul_right _ (by omega)) hq) (by omega)
+    simp only [SeqMap.run]
+    rcases hst : SeqMap.step s op m with ⟨an, s', m'⟩
+    rw [hst] at s2 ih
+    simp only at s2 ih ⊢
+    rcases hrun : SeqMap.run s' rest m' with ⟨tr, s'', m''⟩
+    rw [hrun] at ih
+    simp only at ih ⊢
+    exact ⟨ih.1, by simp only [smAdmitAll, s2]; exact ih.2⟩
+
 end Percival.Proofs.SeqMap
